@@ -431,9 +431,14 @@ def oracle_c07(ctx, budget_s):
 def oracle_c08(ctx, budget_s):
     ctx.rules.append("C08 oracle: every accepted generated design is run through IterateSATGen, RandomGen, CMSGen "
                      "and UniGen; any exception escaping synthesize_trials is a failure")
+    seen = 0
     for case in gen_cases(ctx, budget_s):
+        seen += 1
         for strat, n in (("IterateSATGen", 3), ("RandomGen", 3), ("CMSGen", 2), ("UniGen", 1)):
-            if strat == "UniGen" and not ctx.big() and ctx.counters.get("C08.UniGen", 0) >= 25:
+            # UniGen runs in a child process (slow to start): in the quick tier it is spread thinly over the designs
+            # so that the in-process strategies reach the whole boundary corpus
+            if strat == "UniGen" and not ctx.big() and (ctx.counters.get("C08.UniGen", 0) >= 25 or
+                                                        (seen > 4 and seen % 12 != 0)):
                 continue
             if strat == "RandomGen" and not case.random_ok():
                 ctx.count("skip.random-space")
